@@ -13,6 +13,21 @@ namespace Genjax.Smc
 open FinDist
 variable {K : Type} [Field K] {X : Type}
 
+/-- `estimate` is LINEAR in the test function: an estimate of a vector-, matrix- or pytree-valued test function is the family
+    of the estimates of its components (so every statement about scalar test functions below covers them; the implementation
+    weights along the particle axis of every leaf, fix 5878692), and a constant test function returns acc · mean weight -/
+theorem C10_estimate_linear (s : Sys K X) (a b : K) (φ ψ : X → K) :
+    s.est (fun x => a * φ x + b * ψ x) = a * s.est φ + b * s.est ψ := by
+  unfold Sys.est
+  have h : (s.parts.map fun (xw : X × K) => xw.2 * (a * φ xw.1 + b * ψ xw.1)) =
+      s.parts.map fun (xw : X × K) => a * (xw.2 * φ xw.1) + b * (xw.2 * ψ xw.1) := by
+    apply List.map_congr_left; intro xw _; ring
+  have h1 := sumK_map_add s.parts (fun (xw : X × K) => a * (xw.2 * φ xw.1)) (fun xw => b * (xw.2 * ψ xw.1))
+  have h2 := sumK_map_mul_left s.parts a (fun (xw : X × K) => xw.2 * φ xw.1)
+  have h3 := sumK_map_mul_left s.parts b (fun (xw : X × K) => xw.2 * ψ xw.1)
+  simp only [] at h h1 h2 h3 ⊢
+  rw [h, h1, h2, h3]; ring
+
 /-- one importance-sampling step (init with a proposal q): E_q[p/q] = Σ p -/
 theorem C10_importance_weight_unbiased (xs : List X) (p q : X → K) (hq : ∀ x ∈ xs, q x ≠ 0) :
     E (xs.map fun x => (x, q x)) (fun x => p x / q x) = sumK (xs.map p) := is_unbiased xs p q hq
